@@ -3094,6 +3094,191 @@ def check_C20(tier, seed):
                                                               'why': 'alist / plist / list helper disagrees with the first-match sequence model'})
                 break
     res.cov['list_helper_cases'] = len(helper_cases)
+    # ---- API entry points outside the register model: typed iterators, conversions through references and Option, &str, Rc<dyn Any>,
+    # collect / alist_from / plist_from, destruct_bind! (seven pattern shapes), ctx.eval / eval_and_then / funcall / map / filter / reduce
+    import struct as _st
+    class Sy(str): pass
+    class St(str): pass
+    class Dot:
+        def __init__(s, items, tail): s.items = items; s.tail = tail
+    def fbits(x): return '%x' % _st.unpack('>Q', _st.pack('>d', x))[0]
+    def b2(v, ops, nxt):
+        r = nxt[0]; nxt[0] += 1
+        if v is None: ops.append('nil:%d' % r)
+        elif v is True: ops.append('true:%d' % r)
+        elif isinstance(v, Sy): ops.append('sym:%s:%d' % (hx(str(v)), r))
+        elif isinstance(v, St): ops.append('str:%s:%d' % (hx(str(v)), r))
+        elif isinstance(v, int): ops.append('int:%d:%d' % (v, r))
+        elif isinstance(v, float): ops.append('flt:%s:%d' % (fbits(v).rjust(16, '0'), r))
+        else:
+            items, tail = (v.items, v.tail) if isinstance(v, Dot) else (v, None)
+            tl = b2(tail, ops, nxt)
+            for e in reversed(items):
+                er = b2(e, ops, nxt); nr = nxt[0]; nxt[0] += 1
+                ops.append('cons:%d:%d:%d' % (er, tl, nr)); tl = nr
+            return tl
+        return r
+    def ps(v):
+        if v is None: return 'nil'
+        if v is True: return 't'
+        if isinstance(v, Sy): return str(v)
+        if isinstance(v, St): return '"' + str(v).replace('\\', '\\\\').replace('"', '\\"') + '"'
+        if isinstance(v, float): return repr(v)
+        if isinstance(v, int): return str(v)
+        items, tail = (v.items, v.tail) if isinstance(v, Dot) else (v, None)
+        if not items: return ps(tail)
+        return '(' + ' '.join(ps(e) for e in items) + ('' if tail is None else ' . ' + ps(tail)) + ')'
+    def islist(v): return isinstance(v, (list, Dot)) and (len(v.items if isinstance(v, Dot) else v) > 0)
+    def car_(v):
+        if v is None: return None
+        if islist(v): return (v.items if isinstance(v, Dot) else v)[0]
+        raise ValueError
+    def cdr_(v):
+        if v is None: return None
+        if islist(v):
+            items, tail = (v.items, v.tail) if isinstance(v, Dot) else (v, None)
+            return (Dot(items[1:], tail) if tail is not None and len(items) > 1 else (items[1:] or None) if tail is None else tail)
+        raise ValueError
+    def null_(v): return v is None or (isinstance(v, list) and not v)
+    def db_expect(pat, v):
+        req, opt, rest = {'1': (2, 0, False), '2': (1, 1, False), '3': (1, 2, False), '4': (2, 0, True), '5': (1, 1, True), '6': (0, 2, False), '7': (0, 0, True)}[pat]
+        out = []
+        try:
+            for _ in range(req): out.append(car_(v)); v = cdr_(v)
+            for _ in range(opt):
+                if not null_(v): out.append(car_(v)); v = cdr_(v)
+                else: out.append(None); v = None
+            if rest: out.append(v)
+            elif not null_(v): return 'e'
+        except ValueError:
+            return 'e'
+        return 'D' + ','.join(hx(ps(x)) for x in out)
+    atoms = [None, True, 0, 1, -7, 2**62, 1.5, -0.0, Sy('a'), Sy('b'), St(''), St('s"q'), St('é')]
+    def rlist(depth=1):
+        n = rng.choice([0, 1, 1, 2, 2, 3, 4, 5])
+        items = [rng.choice(atoms) if depth == 0 or rng.random() < 0.8 else rlist(0) for _ in range(n)]
+        items = [x if not (isinstance(x, list) and not x) else None for x in items]
+        if items and rng.random() < 0.12: return Dot(items, rng.choice([1, Sy('z'), St('t')]))
+        return items or None
+    ex_cases = []
+    def elems(v): return [] if v is None else (v.items if isinstance(v, Dot) else v)
+    for _ in range(tier_n(tier, 600, 12000)):
+        v = rlist() if rng.random() < 0.9 else rng.choice(atoms)
+        ops = []; nxt = [10]; exp = {}
+        r = b2(v, ops, nxt)
+        kind = rng.choice(['iter', 'db', 'db', 'opt', 'from'])
+        if kind == 'iter' and (v is None or isinstance(v, (list, Dot))):
+            es = elems(v)
+            def conv(e, k):
+                if k == 'i': return 'i%d' % e if isinstance(e, int) and e is not True else 'e'
+                if k == 'f': return 'f' + fbits(e) if isinstance(e, float) else ('f' + fbits(float(e)) if isinstance(e, int) and e is not True and abs(e) < 2**53 else ('e' if not isinstance(e, int) or e is True else None))
+                if k == 's': return 's' + hx(str(e)) if isinstance(e, St) else 'e'
+                if k == 'b': return 'b0' if e is None else 'b1'
+                return 'v' + hx(ps(e))
+            for k in 'ifsbo':
+                ops.append('iter%s:%d' % (k, r))
+                items_ = [conv(e, k) for e in es]
+                if None not in items_: exp[len(ops) - 1] = 'L' + ','.join(items_)
+        elif kind == 'db':
+            pat = rng.choice('1234567')
+            ops.append('db:%s:%d' % (pat, r)); exp[len(ops) - 1] = db_expect(pat, v)
+        elif kind == 'opt':
+            a = rng.choice(atoms + [[1, 2]])
+            ops = []; nxt = [10]; r = b2(a, ops, nxt)
+            isint = isinstance(a, int) and a is not True
+            ops.append('optint:%d' % r); exp[len(ops) - 1] = 'n' if a is None else ('i%d' % a if isint else 'e')
+            ops.append('optstr:%d' % r); exp[len(ops) - 1] = 'n' if a is None else ('s' + hx(str(a)) if isinstance(a, St) else 'e')
+            ops.append('optflt:%d' % r)
+            if a is None: exp[len(ops) - 1] = 'n'
+            elif isinstance(a, float): exp[len(ops) - 1] = 'f' + fbits(a)
+            elif not isint: exp[len(ops) - 1] = 'e'
+            ops.append('optany:%d' % r); exp[len(ops) - 1] = 'n' if a is None else 'e'
+            ops.append('toany:%d' % r); exp[len(ops) - 1] = 'e'
+            ops.append('tointr:%d' % r); exp[len(ops) - 1] = 'i%d' % a if isint else 'e'
+            ops.append('tofltr:%d' % r)
+            if isinstance(a, float): exp[len(ops) - 1] = 'f' + fbits(a)
+            elif not isint: exp[len(ops) - 1] = 'e'
+            bx = rng.randrange(256)
+            ops += ['box:%d:2' % bx, 'toany:2', 'optany:2', 'toint:2', 'tostr:2', 'tobool:2']
+            exp[len(ops) - 5] = 'a%d' % bx; exp[len(ops) - 4] = 'a'; exp[len(ops) - 3] = 'e'; exp[len(ops) - 2] = 'e'; exp[len(ops) - 1] = 'b1'
+            if isinstance(a, St):
+                ops += ['strref:%s:3' % hx(str(a)), 'tostr:3', 'equal:3:%d' % r, 'show:3']
+                exp[len(ops) - 3] = 's' + hx(str(a)); exp[len(ops) - 2] = 'b1'; exp[len(ops) - 1] = 'v' + hx(ps(a))
+        else:
+            es = [rng.choice(atoms) for _ in range(rng.choice([0, 1, 2, 3]) * 2)]
+            ops = []; nxt = [10]
+            rs = [b2(e, ops, nxt) for e in es]
+            ops.append('collect:' + ':'.join(str(x) for x in rs) + (':' if rs else '') + '1'); ops.append('show:1'); exp[len(ops) - 1] = 'v' + hx(ps(es or None))
+            ops.append('alistfrom:' + ':'.join(str(x) for x in rs) + (':' if rs else '') + '2'); ops.append('show:2')
+            exp[len(ops) - 1] = 'v' + hx(ps([Dot([es[i]], es[i + 1]) if es[i + 1] is not None else [es[i]] for i in range(0, len(es), 2)] or None))
+            ops.append('plistfrom:' + ':'.join(str(x) for x in rs) + (':' if rs else '') + '3'); ops.append('show:3'); exp[len(ops) - 1] = 'v' + hx(ps(es or None))
+            if es:
+                ops += ['car:1:4', 'eq:4:%d' % rs[0]]; exp[len(ops) - 1] = 'b1'        # the objects themselves, not copies
+        ex_cases.append((ops, exp))
+    # fixed: the context entry points that take objects
+    def seq(*ops_exp):
+        ops = []; exp = {}
+        for o, e in ops_exp:
+            ops.append(o)
+            if e is not None: exp[len(ops) - 1] = e
+        ex_cases.append((ops, exp))
+    L = lambda *xs: list(xs)
+    def mk(v, r0):
+        ops = []; nxt = [r0]; r = b2(v, ops, nxt); return ops, r
+    o1, r1 = mk(L(1, 2), 20); o2, r2 = mk(L(L(Sy('a'), Sy('b')), Sy('c')), 40); o3, r3 = mk(L(1, 2, 3), 60); o4, r4 = mk(L(Sy('a'), Sy('b')), 80)
+    o5, r5 = mk(L(Sy('quote'), L(Sy('a'), Sy('b'))), 100)
+    seq(*[(o, None) for o in o1], ('evals:%s:1' % hx('(lambda (a b) (list b a))'), 'u'), ('ctxfuncall:1:%d:2' % r1, 'u'), ('show:2', 'v' + hx('(2 1)')))
+    seq(*[(o, None) for o in o2], ('sym:%s:1' % hx('list'), 'u'), ('ctxfuncall:1:%d:2' % r2, 'u'), ('show:2', 'v' + hx('((a b) c)')), ('show:%d' % r2, 'v' + hx('((a b) c)')))
+    seq(*[(o, None) for o in o3], ('sym:%s:1' % hx('+'), 'u'), ('ctxfuncall:1:%d:2' % r3, 'u'), ('show:2', 'v' + hx('6')), ('int:10:3', 'u'), ('ctxreduce:1:%d:3:4' % r3, 'u'), ('show:4', 'v' + hx('16')),
+        ('sym:%s:5' % hx('1+'), 'u'), ('ctxmap:5:%d:6' % r3, 'u'), ('show:6', 'v' + hx('(2 3 4)')), ('evals:%s:7' % hx('(lambda (x) (> x 1))'), 'u'), ('ctxfilter:7:%d:8' % r3, 'u'), ('show:8', 'v' + hx('(2 3)')),
+        ('show:%d' % r3, 'v' + hx('(1 2 3)')))
+    seq(*[(o, None) for o in o4], ('evals:%s:1' % hx('(lambda (acc x) (list acc x))'), 'u'), ('sym:%s:2' % hx('z'), 'u'), ('ctxreduce:1:%d:2:3' % r4, 'u'), ('show:3', 'v' + hx('((z a) b)')),
+        ('evals:%s:4' % hx('(lambda (x) (list x))'), 'u'), ('ctxmap:4:%d:5' % r4, 'u'), ('show:5', 'v' + hx('((a) (b))')), ('nil:6', 'u'), ('ctxmap:4:6:7', 'u'), ('show:7', 'v' + hx('nil')),
+        ('ctxfuncall:4:%d:8' % r4, 'e'))
+    seq(*[(o, None) for o in o5], ('ctxeval:%d:1' % r5, 'u'), ('show:1', 'v' + hx('(a b)')), ('evalthen:%d' % r5, 'v' + hx('(a b)')), ('sym:%s:2' % hx('xv'), 'u'), ('evalthen:2', 'e'), ('int:5:3', 'u'), ('set:2:3', 'u'),
+        ('evalthen:2', 'v' + hx('5')), ('ctxeval:2:4', 'u'), ('eq:4:3', 'b1'), ('evalthen:3', 'v' + hx('5')), ('sym:%s:5' % hx('no-such-fn'), 'u'), ('ctxfuncall:5:%d:6' % r5, 'e'))
+    xc = Case('extras')
+    for ops, _ in ex_cases: xc.lines.append('api ' + ' '.join(ops)); xc.nreq += 1
+    xo = core.run_side(core.TLIMPL_DEBUG, [xc], announce=True).get('extras', [])
+    nx = 0
+    for (ops, exp), l in zip(ex_cases, xo):
+        if ' API ' not in l or l.endswith('PANIC'):
+            nv += 1
+            if nv <= 8: res.violation('api-panic', {'ops': ops, 'why': 'an API call panicked or aborted'})
+            continue
+        got = l.split(' API ', 1)[1].split('|')
+        ncmp += 1; nx += 1
+        for j, e in sorted(exp.items()):
+            g_ = got[j] if j < len(got) else '?'
+            if g_ != e:
+                nv += 1
+                def rd(x): return x[0] + unhx(x[1:]) if x[:1] in 'vs' and len(x) > 1 else (','.join(unhx(y) for y in x[1:].split(',')) if x[:1] == 'D' else x)
+                if nv <= 8: res.violation('api-extras', {'ops': ops, 'op': ops[j], 'expected': rd(e), 'got': rd(g_),
+                                                         'why': 'typed iterator / conversion / list constructor / destruct_bind! / context entry point disagrees with the sequence model'})
+                break
+    if len(xo) != len(ex_cases):
+        nv += 1; res.violation('api-panic', {'why': 'the API run stopped after %d of %d sequences' % (len(xo), len(ex_cases)), 'ops': ex_cases[len(xo)][0] if len(xo) < len(ex_cases) else None})
+    res.cov['api_extra_cases'] = nx
+    # a host macro registered with add_macro: called with the unevaluated argument forms, its result evaluated once
+    mc = []
+    for k, (text, want, ticks) in enumerate([
+            ("(host-rev (tick 1 1) (tick 2 2))", '(2 1)', '2:2,1:1'), ("(macroexpand '(host-rev a b c))", '(list c b a)', '-'), ("(host-rev)", 'nil', '-'),
+            ("(let ((x 1)) (host-rev x 'x))", '(x 1)', '-'), ("(defun hr (a b) (host-rev a (tick 3 b))) (hr 1 2)", '(2 1)', '3:2'), ("(macroexpand '(when (host-rev 1 2) (host-rev 3)))", '(if (list 2 1) (progn (list 3)))', '-'),
+            ("(host-rev (host-rev 1 2) 3)", '(3 (2 1))', '-')]):
+        c = Case('hm%d' % k); c.eval(text); mc.append((c, want, ticks))
+    mo_ = core.run_side(core.TLIMPL_DEBUG, [c for c, _, _ in mc], announce=True)
+    for c, want, ticks in mc:
+        ls = mo_.get(c.cid, [])
+        ncmp += 1
+        ok_ = False
+        if ls:
+            _, kind, payload, tk_ = core.parse_line(ls[-1])
+            tk_ = '-' if tk_ in (None, '-') else ','.join('%s:%s' % (x.split(':')[0], unhx(x.split(':')[1])) for x in tk_.split(','))
+            ok_ = kind == 'V' and unhx(payload) == want and tk_ == ticks
+        if not ok_:
+            nv += 1
+            if nv <= 8: res.violation('api-host-macro', {'requests': c.readable(), 'expected': want, 'expected_ticks': ticks, 'line': decode_line(ls[-1]) if ls else None,
+                                                         'why': 'a macro registered with add_macro is not applied to the unevaluated argument forms with its result evaluated once'})
     # host functions: declared parameter types, optional and rest parameters, each argument evaluated once
     hitems = []
     for _ in range(tier_n(tier, 600, 15000)):
@@ -3126,7 +3311,9 @@ def check_C20(tier, seed):
     res.cov['rule'] = ('object / symbol API call sequences interpreted by the harness and by the heap model (objects are cells with identity: aliasing through cdr handles, in-place push, copying append); '
                        'after every sequence all registers are printed, iterated, compared and converted; exhaustive short sequences and random ones up to 30 operations; oracle: Python stack model for '
                        'set / set_scope / unset / get / boundp incl. a constant symbol, exact round trip of i64 / f64 (bit patterns incl. NaN, inf, -0.0) / String / bool conversions and rejection of wrong types; '
-                       'lists::assoc / alist_get (with and without default, nil-valued pairs, non-pair elements) / plist_get / length / nth / nthcdr / last on built structures against a first-match model; host functions with i64 / Option<i64> / rest / String / f64 parameters called with ticked arguments directly, via funcall and mapcar; correspondence with the model')
+                       'lists::assoc / alist_get (with and without default, nil-valued pairs, non-pair elements) / plist_get / length / nth / nthcdr / last on built structures against a first-match model; host functions with i64 / Option<i64> / rest / String / f64 parameters called with ticked arguments directly, via funcall and mapcar; correspondence with the model; '
+                       '%d further sequences against a Python sequence model: typed iterators iter::<i64|f64|String|bool|TulispObject> (one converted item or error per element, dotted tail ignored), conversions through &TulispObject, Option<T>, &str and Rc<dyn Any>, collect / alist_from / plist_from (the objects themselves, in order), destruct_bind! in its seven pattern shapes on proper, short, long and dotted lists and atoms, '
+                       'ctx.eval / eval_and_then / funcall / map / filter / reduce on objects (arguments not evaluated, argument lists not modified), and a host macro registered with add_macro (unevaluated forms in, result evaluated once, expanded at read time)' % nx)
     res.cov['samples'] = [' '.join(API_PRELUDE + seqs[len(seqs) // 2] + API_DUMP)]
     for d in res.pending:
         res.violation('disagreement', d, no_input=not oracle_confirms(d))
